@@ -315,7 +315,7 @@ func runC12(c *mon.Ctx) {
 		}
 	}
 	// stage random decode
-	n := c.Pick(300000, 4000000)
+	n := c.Pick(300000, 15000000)
 	for i := int64(0); i < n; i++ {
 		if !c.Mine("random", i) {
 			continue
@@ -334,7 +334,7 @@ func runC12(c *mon.Ctx) {
 		}
 	}
 	// stage encode: WriteData vs reference encoding
-	ne := c.Pick(120000, 1500000)
+	ne := c.Pick(120000, 6000000)
 	for i := int64(0); i < ne; i++ {
 		if !c.Mine("encode", i) {
 			continue
